@@ -284,12 +284,24 @@ def receiver_flag(site, flag='is_auipc_jump'):
     return val
 
 
+_CONSTS = {}
+
+
+def int_of(v):
+    """Integer value of a constant or of a module-level integer constant named in the value, else None."""
+    if is_const(v) and isinstance(v[1], int) and not isinstance(v[1], bool):
+        return v[1]
+    if v[0] == 'name' and isinstance(_CONSTS.get(v[1]), int) and not isinstance(_CONSTS.get(v[1]), bool):
+        return _CONSTS[v[1]]
+    return None
+
+
 def position_offset(site):
     """position argument as (base symbol, additive constant) or None."""
     pos = site.pos
     k = 0
-    while pos[0] == 'bin' and pos[1] in ('+', '-') and is_const(pos[3]) and isinstance(pos[3][1], int):
-        k += pos[3][1] if pos[1] == '+' else -pos[3][1]
+    while pos[0] == 'bin' and pos[1] in ('+', '-') and int_of(pos[3]) is not None:
+        k += int_of(pos[3]) if pos[1] == '+' else -int_of(pos[3])
         pos = pos[2]
     return pos, k
 
@@ -383,6 +395,8 @@ def check_auipc(report, facts, rule_adj, rule_sib):
     """R-auipc.  (a) no additive correction is applied to the *result* of evaluating an immediate that may be %hi/%lo
     (not linear in its argument); the correction belongs in the position argument.  (b) every site that evaluates the
     `imm` of an item which may carry is_auipc_jump agrees with the baking site on the effective evaluation point."""
+    _CONSTS.clear()
+    _CONSTS.update({k: v for k, v in facts.consts.items() if isinstance(v, int)})
     all_sites = eval_sites(facts)
     sites = [s for s in all_sites if s.recv[0] == 'attr' and s.recv[2] == 'imm']
     wr = wrappers(facts, sites)
@@ -452,8 +466,8 @@ def check_auipc(report, facts, rule_adj, rule_sib):
             report.ok(rule_sib, '{}:{}: predicate is never applied to an is_auipc_jump item'.format(c['fn'], c['node'].lineno))
             continue
         base, kc = c['pos'], 0
-        while base[0] == 'bin' and base[1] in ('+', '-') and is_const(base[3]) and isinstance(base[3][1], int):
-            kc += base[3][1] if base[1] == '+' else -base[3][1]
+        while base[0] == 'bin' and base[1] in ('+', '-') and int_of(base[3]) is not None:
+            kc += int_of(base[3]) if base[1] == '+' else -int_of(base[3])
             base = base[2]
         cases = [x for x in w['cases'] if x[0] is True] or [x for x in w['cases'] if x[0] is None]
         for flag, k, post, s in cases:
